@@ -8,6 +8,7 @@ P = real Continuous / ContinuousJsrun after its real __init__/_initialize/
 C = fork-like copy of P with its own mutable state but the SAME queue objects,
     running the real `_schedule_tasks()` loop in a baton-passing thread.
 """
+import re
 import copy
 import math
 import threading
@@ -609,17 +610,20 @@ class SchedSim(object):
             if self.fits(td, idle=True):
                 self.bad('C04', 'fitting_task_failed:never', '%s %s failed: %s'
                          % (uid, self._tdsum(td), msg[:200]))
-        elif progress_ok and self.fits(td, idle=True) and not spec.get('bad_ranks'):
+        elif (progress_ok or self._crash_domain(spec)) and self.fits(td, idle=True) \
+                and not spec.get('bad_ranks'):
             # failed for another (internal) reason: noted, judged only when the
             # message blames resources
-            if 'does not fit' in msg or 'too many' in msg or 'too much' in msg:
+            if not progress_ok and not re.match(r'(TypeError|KeyError|IndexError|AttributeError|'
+                                                r'ZeroDivisionError|UnboundLocalError|NameError)\b', msg):
+                self.labels.add('failed_internal')
+            elif 'does not fit' in msg or 'too many' in msg or 'too much' in msg:
                 self.bad('C04', 'fitting_task_failed:fit_check', '%s %s failed: %s'
                          % (uid, self._tdsum(td), msg[:200]))
             else:
                 self.labels.add('failed_internal')
                 # ... or when the search itself crashed (a task that fits the idle pilot is
                 # failed because of what the pilot looks like right now)
-                import re
                 m = re.match(r'(TypeError|KeyError|IndexError|AttributeError|ZeroDivisionError|'
                              r'UnboundLocalError|NameError)\b', msg)
                 if m:
@@ -650,6 +654,14 @@ class SchedSim(object):
         return (self.C._scattered and not self.jsrun and not spec.get('app') and
                 (td.get('tags') or {}).get('colocate') is None and
                 not td.get('named_env') and not td.get('raptor_id'))
+
+    def _crash_domain(self, spec):
+        """a task which fits the idle pilot and is failed because the search itself raised: judged
+        for scheduler-placed tasks of the jsrun scheduler, too (no placement policy involved)"""
+        td = spec['td']
+        gpr = td.get('gpus_per_rank') or 0
+        return (self.jsrun and not spec.get('app') and abs(gpr - round(gpr)) < EPS and
+                (td.get('tags') or {}).get('colocate') is None and not td.get('named_env'))
 
     # --------------------------------------------------------------------------
     # quiescent-point clauses of C03 / C04
